@@ -41,34 +41,40 @@ extern void mpt_gnode_swap(MPT_STRUCT(node) *pri, MPT_STRUCT(node) *sec)
  */
 extern void mpt_gnode_switch(MPT_STRUCT(node) *pri, MPT_STRUCT(node) *sec)
 {
-	MPT_STRUCT(node) *parent, *next, *prev, *tmp;
+	MPT_STRUCT(node) *pp, *pn, *pv, *sp, *sn, *sv;
 	
+	if (pri == sec) {
+		return;
+	}
 	/* save node pointers */
-	parent	= pri->parent;
-	next	= pri->next;
-	prev	= pri->prev;
+	pp = pri->parent;
+	pn = pri->next;
+	pv = pri->prev;
+	sp = sec->parent;
+	sn = sec->next;
+	sv = sec->prev;
 	
 	/* reassign primary */
-	if ((pri->next = tmp = sec->next)) {
-		tmp->prev = pri;
+	pri->parent = sp;
+	if ((pri->next = sn)) {
+		sn->prev = pri;
 	}
-	else if ((pri->parent = tmp = sec->parent)
-	         && tmp->children == sec) {
-		tmp->children = pri;
+	if ((pri->prev = sv)) {
+		sv->next = pri;
 	}
-	if ((pri->prev = tmp = sec->prev)) {
-		tmp->next = pri;
+	else if (sp && sp->children == sec) {
+		sp->children = pri;
 	}
 	/* reassign secondary */
-	if ((sec->next = next)) {
-		next->prev = sec;
+	sec->parent = pp;
+	if ((sec->next = pn)) {
+		pn->prev = sec;
 	}
-	else if ((sec->parent = parent)
-	         && parent->children == pri) {
-		parent->children = sec;
+	if ((sec->prev = pv)) {
+		pv->next = sec;
 	}
-	if ((sec->prev = prev)) {
-		prev->next = sec;
+	else if (pp && pp->children == pri) {
+		pp->children = sec;
 	}
 }
 
